@@ -85,17 +85,6 @@ pub open spec fn consumed_head<const N: usize>(pre: FixedBuf<N>, post: FixedBuf<
     has_delim(pre.rd()) && post.wf() && post.mem() == pre.mem()
     && post.rd() == pre.rd().subrange(fd(pre.rd()) + 4, pre.rd().len() as int)
 }
-impl Head {
-    #[verifier::external_body]
-    pub fn try_read<const BUF_SIZE: usize>(buf: &mut FixedBuf<BUF_SIZE>) -> (r: Result<Self, HeadError>)
-        requires old(buf).wf()
-        ensures final(buf).wf(),
-            !has_delim(old(buf).rd()) ==> r is Err && r->Err_0 is Truncated && buf_unchanged(*old(buf), *final(buf)),
-            has_delim(old(buf).rd()) ==> consumed_head(*old(buf), *final(buf))
-                && r == parse_head(old(buf).rd().subrange(0, fd(old(buf).rd()))) && !(r is Err && r->Err_0 is Truncated),
-    { unimplemented!() }
-}
-
 // ---- the contract of read_http_head, from the property statement: the outcome is a function of the
 // bytes available (buffered ++ delivered), independent of how they were split into reads
 pub open spec fn head_post<const N: usize>(pre: FixedBuf<N>, post: FixedBuf<N>, evs: Seq<Ev>, r: Result<Head, HttpError>) -> bool {
